@@ -858,6 +858,7 @@ impl Exec {
         let e = op["e"].as_str().expect("step without e");
         match e {
             "bw" => {
+                assert!(self.wtx.is_none(), "script error: begin_write while a write transaction is live would block forever");
                 let r = match self.db.as_ref().unwrap().begin_write() {
                     Ok(t) => {
                         self.wtx = Some(Box::into_raw(Box::new(t)));
@@ -1102,6 +1103,7 @@ impl Exec {
                 Self::with_r(op, r)
             }
             "compact" => {
+                assert!(self.wtx.is_none(), "script error: compact with a live write transaction");
                 let r = match self.db.as_mut().unwrap().compact() {
                     Ok(b) => ok(json!(b)),
                     Err(e) => er(e),
@@ -1109,11 +1111,18 @@ impl Exec {
                 Self::with_r(op, r)
             }
             "integrity" => {
+                // is the layout in memory ahead of the one in the on-disk header?
+                let hdr = self.db.as_ref().unwrap().verif_header();
+                let bytes = self.store.prefix(64);
+                let rd = |o: usize| u32::from_le_bytes(bytes[o..o + 4].try_into().unwrap());
+                let stale = bytes.len() >= 32 && (rd(24), rd(28)) != (hdr.full_regions, hdr.trailing_region_pages);
                 let r = match self.db.as_mut().unwrap().check_integrity() {
                     Ok(b) => ok(json!(b)),
                     Err(e) => er(e),
                 };
-                Self::with_r(op, r)
+                let mut evs = Self::with_r(op, r);
+                evs[0]["stale"] = json!(stale);
+                evs
             }
             "reopen" => {
                 self.teardown();
